@@ -181,6 +181,9 @@ pub struct Cfg {
     pub uid_pool: usize,
     pub rich_props: bool,
     pub max_insert: usize,
+    /// 0 = none; 1 = "wide": two folders of 65-130 children, every child of the first pointing at a child of the second;
+    /// 2 = "mass": 460 id-carrying children, a parentless clone of one of them, then the whole folder destroyed
+    pub scenario: u8,
 }
 
 const UID_POOL: [(u32, u32, i64); 4] = [(0, 0, 0), (1, 1, 1), (2, 2, 2), (3, 3, 3)];
@@ -1095,10 +1098,45 @@ pub fn run_history(ch: &mut dyn Chooser, cfg: &Cfg, rep: &mut Report, want: &str
     let mut out: Vec<V> = vec![];
     let mut ops_done = 0usize;
     let mut moved_with_siblings = false;
+    // scripted opening of the size scenarios: ordinary operations, applied and checked like every other step
+    let mut prelude_stage = 0usize;
+    let leaf = |name: &str, props: Vec<(String, MV)>| NewNode { class: "ObjectValue".into(), name: name.into(), shadowed_uid: None, props, children: vec![], self_ref_prop: false, other_thread: false, ctor: 0 };
     // initial forest through inserts (part of the history)
-    let total_steps = cfg.init_nodes + cfg.steps;
+    let total_steps = cfg.init_nodes + cfg.steps + if cfg.scenario != 0 { 4 } else { 0 };
     for step in 0..total_steps {
-        let op = if cfg.exhaustive {
+        let scripted: Option<Op> = match (cfg.scenario, prelude_stage) {
+            (1, 0) => {
+                let wcount = [65usize, 70, 130][ch.choose(3)];
+                let kids = (0..wcount).map(|i| leaf(&format!("b{}", i), vec![])).collect();
+                Some(Op::Insert { dom: 0, parent: w.m.roots[0], sub: NewNode { class: "Folder".into(), name: "B".into(), shadowed_uid: None, props: vec![], children: kids, self_ref_prop: false, other_thread: false, ctor: 0 } })
+            }
+            (1, 1) => {
+                // B was the last insert: its model id and its children's ids are the last ones handed out
+                let b = *w.m.nodes.iter().rev().find(|(_, n)| n.name == "B").map(|(i, _)| i).unwrap();
+                let targets = w.m.nodes[&b].children.clone();
+                let kids = targets.iter().enumerate().map(|(i, t)| leaf(&format!("a{}", i), vec![("Value".to_owned(), MV::Ref(MRef::Node(*t)))])).collect();
+                Some(Op::Insert { dom: 0, parent: w.m.roots[0], sub: NewNode { class: "Folder".into(), name: "A".into(), shadowed_uid: None, props: vec![], children: kids, self_ref_prop: false, other_thread: false, ctor: 0 } })
+            }
+            (2, 0) => {
+                let kids = (0..460).map(|i| leaf(&format!("m{}", i), vec![("UniqueId".to_owned(), MV::Uid(uid_of(i % 4)))])).collect();
+                Some(Op::Insert { dom: 0, parent: w.m.roots[0], sub: NewNode { class: "Folder".into(), name: "M".into(), shadowed_uid: None, props: vec![], children: kids, self_ref_prop: false, other_thread: false, ctor: 0 } })
+            }
+            (2, 1) => {
+                let mm = *w.m.nodes.iter().rev().find(|(_, n)| n.name == "M").map(|(i, _)| i).unwrap();
+                Some(Op::CloneWithin { x: w.m.nodes[&mm].children[3] })
+            }
+            (2, 2) => {
+                let mm = *w.m.nodes.iter().rev().find(|(_, n)| n.name == "M").map(|(i, _)| i).unwrap();
+                Some(Op::Destroy { x: mm })
+            }
+            _ => None,
+        };
+        if scripted.is_some() {
+            prelude_stage += 1;
+        }
+        let op = if scripted.is_some() {
+            scripted
+        } else if cfg.exhaustive {
             let ops = all_ops(&w, cfg);
             let ops: Vec<Op> = if step < cfg.init_nodes { ops.into_iter().filter(|o| matches!(o, Op::Insert { .. })).collect() } else { ops };
             if ops.is_empty() {
@@ -1218,7 +1256,7 @@ pub fn main(a: &Args) {
             max_live: 12,
             uid_pool: a.usize("uids", 1),
             rich_props: a.str("rich", "0") == "1",
-            max_insert: 1,
+            max_insert: 1, scenario: 0,
         };
         let mut ch = EnumCh { stack: vec![], pos: 0 };
         let mut n: u64 = 0;
@@ -1284,7 +1322,15 @@ pub fn main(a: &Args) {
                 uid_pool: if rng.chance(1, 4) { 0 } else { 2 + rng.below(3) },
                 rich_props: true,
                 max_insert: 1 + rng.below(6),
+                scenario: 0,
             };
+            let mut cfg = cfg;
+            if i % 40 == 17 {
+                cfg.scenario = 1 + (i / 40 % 2) as u8;
+                cfg.ndoms = cfg.ndoms.max(2);
+                cfg.max_live = 900;
+                cfg.steps = cfg.steps.min(60);
+            }
             let mut ch = RandCh(rng);
             let replay = json!({"cmd": "domops", "mode": "random", "prop": want, "seed": seed, "index": i});
             run_history(&mut ch, &cfg, rep, &want, replay, true);
